@@ -96,6 +96,16 @@ CLAIMS = {
                 '(admitted differences frozen).',
         not_decided='forward o inverse = identity for all N (loop induction), rounding error of the round trip, slot-0 = (M, COM) beyond the component isomorphism',
         design_ref='3/C12'),
+    'C13': dict(
+        module='c13', level='other',
+        technique='sibling-block isomorphism (p1/p2 fix-up), sequential symbolic execution of the merge resolver into polynomial identities, component isomorphism, growth-before-write',
+        decided='the collision dispatch is exhaustive; the index fix-up after removing p1 and after removing p2 are the same statements under p1<->p2 (one admitted stanza) and '
+                'invalidate before re-indexing; the merge resolver satisfies (m_i+m_j)x\' = m_i x_i + m_j x_j for positions and velocities, m\' = m_i+m_j, r\'^3 = r_i^3+r_j^3, '
+                'modifies only the survivor, removes the larger index (return code), refuses a second merge in the same step; halt removes nothing; order-preserving removal is forced '
+                'for MERCURIUS/TRACE at both deciding sites; every write to the pending-collision array follows its growth test; every x/y/z triple of the searches, tree neighbour search '
+                'and ghost-box shifts is one formula under an axis permutation.',
+        not_decided='completeness of detection, tree pruning radius, order independence of multi-collision steps, hard-sphere identities',
+        design_ref='3/C13'),
     'C17': dict(
         module='c17', level='other',
         technique='who-reads-what over the differ and reader (clang AST + record layouts + descriptor table): pointer-blind compare, ignore-set exactness, accumulation form, allocation discipline',
